@@ -52,6 +52,10 @@ func genAmount(r *core.Rand, extremes bool) int {
 
 var mutKinds = []string{"badsig", "flipblob", "wrongkey", "otherchain", "ctx", "nochain", "truncctx", "flipraw", "trunc", "garbage", "oversize"}
 
+// mutKindsC09 adds, for the authenticity check only (so that the scenarios of the other chain
+// properties keep their shape), envelopes whose stated signer is a small-order point.
+var mutKindsC09 = append(append([]string{}, mutKinds...), "smallorder", "smallorder")
+
 // Workload is a property-specific extension of the transaction mix.
 type Workload struct {
 	Kinds  []string // extension transaction kinds (registered with RegisterTxKind) or built-in kinds
@@ -270,6 +274,10 @@ func (e Engine) Generate(r *core.Rand, tier core.Tier) *core.Scenario {
 			}
 			if r.Chance(1, 15) {
 				op.Mut = mutKinds[r.Intn(len(mutKinds))]
+				if e.Prop == "C09" {
+					// (one more PRNG draw, for this property only)
+					op.Mut = mutKindsC09[(r.Intn(1<<16))%len(mutKindsC09)]
+				}
 				op.MutA = r.Intn(1 << 12)
 			}
 			if r.Chance(1, 25) {
